@@ -1512,7 +1512,7 @@ def reduce_case(ctx, files, bins, cs, cpu, first, budget=120):
         return False
 
     def fixed(ln):
-        return ln.strip() == '' or re.match(r'^\s*(cpu|padding)\s', ln) or re.match(r'^\S+\s+equ\s', ln)
+        return ln.strip() == '' or re.match(r'^\s*cpu\s', ln) or re.match(r'^\S+\s+equ\s', ln)
 
     def reduce_span(fname, lo, hi):
         """reduce lines[lo:hi] of file fname; returns new hi"""
